@@ -590,12 +590,16 @@ func (k Keeper) getMinDeposit(ctx sdk.Context, pricing types.Pricing) sdk.Coins 
 func (k Keeper) validateDeposit(ctx sdk.Context, deposit sdk.Coins) error {
 	baseDenom := k.BaseDenom(ctx)
 
+	if len(deposit) != 1 {
+		return sdkerrors.Wrapf(types.ErrInvalidDeposit, "deposit only accepts %s", baseDenom)
+	}
+
 	token, err := k.tokenKeeper.GetToken(ctx, deposit[0].Denom)
 	if err != nil {
 		return sdkerrors.Wrap(types.ErrInvalidPricing, err.Error())
 	}
 
-	if len(deposit) != 1 || token.GetMinUnit() != baseDenom {
+	if token.GetMinUnit() != baseDenom {
 		return sdkerrors.Wrapf(types.ErrInvalidDeposit, "deposit only accepts %s", baseDenom)
 	}
 
